@@ -32,6 +32,9 @@ func propC01(w *World, r *Run) {
 	ruleSameHandle(w, r, a, "C01.c")
 	ruleSoleWriter(w, r, "C01.d")
 	ruleNotFoundExact(w, r, "C01.e")
+	ruleCommitBeforeAck(w, r, "C01.f")
+	ruleComposedSQL(w, r, "C01.f")
+	ruleComposedInMemory(w, r, "C01.f")
 }
 
 func propC02(w *World, r *Run) {
@@ -42,6 +45,8 @@ func propC02(w *World, r *Run) {
 	ruleUnknownFirst(w, r, a, "C02.a")
 	ruleAuthBeforeUse(w, r, a, "C02.b")
 	ruleConfigKeying(w, r, "C02.c")
+	ruleParseBodyTotal(w, r, "C02.d", "C02.d")
+	ruleServeHTTP(w, r, "C02.d", "C02.d", "C02.d")
 }
 
 func propC03(w *World, r *Run) {
@@ -53,6 +58,7 @@ func propC03(w *World, r *Run) {
 	ruleRefusalBytes(w, r, a, "C03.b")
 	ruleStorageRefusal(w, r, "C03.c")
 	ruleLogsFromKeys(w, r, "C03.d")
+	ruleServeHTTP(w, r, "C03.e", "C03.e", "C03.e")
 }
 
 func propC04(w *World, r *Run) {
@@ -65,7 +71,7 @@ func propC04(w *World, r *Run) {
 	ruleStoredIsCosigned(w, r, a, "C04.b")
 	ruleFreshNoShortCircuit(w, r, a, "C04.c")
 	ruleReadVerbatim(w, r, "C04.d")
-	ruleImmut(w, r, "C04.e", immutCoreFields(w, r, "C04.e"))
+	ruleImmut(w, r, "C04.e", immutCoreFields(w, r, "C04.e", "Witness"))
 }
 
 func propC07(w *World, r *Run) {
@@ -75,6 +81,8 @@ func propC07(w *World, r *Run) {
 	a := analyseUpdate(w, r)
 	ruleTofuOnlyOnNotFound(w, r, a, "C07.a")
 	ruleCloseAlways(w, r, a, "C07.b")
+	ruleCloseIsRollback(w, r, "C07.b")
+	ruleComposedSQL(w, r, "C07.b")
 	ruleErrNotDropped(w, r, a, "C07.c")
 	ruleNoNestedStorage(w, r, a, "C07.g")
 	ruleStorageErrDiscipline(w, r, "C07.c")
@@ -94,6 +102,7 @@ func propC08(w *World, r *Run) {
 	ruleNoNestedStorage(w, r, a, "C08.c")
 	ruleCloseIsRollback(w, r, "C08.c")
 	ruleNoLeakedTx(w, r, "C08.c")
+	ruleParseBodyTotal(w, r, "C08.d", "C08.d")
 }
 
 func propC09(w *World, r *Run) {
@@ -149,6 +158,8 @@ func propC06(w *World, r *Run) {
 	ruleOneStatement(w, r, "C06.b")
 	ruleSoleWriter(w, r, "C06.c")
 	ruleStorageRefusal(w, r, "C06.d")
+	ruleReadVerbatim(w, r, "C06.e")
+	ruleComposedSQL(w, r, "C06.e")
 }
 
 func init() {
@@ -164,6 +175,8 @@ func propC10(w *World, r *Run) {
 	ruleStatusTable(w, r, a, "C10.a")
 	ruleServeHTTP(w, r, "C10.b", "C10.c", "C10.e")
 	ruleSentinelExhaustive(w, r, a, "C10.a")
+	ruleStrictInteger(w, r, "C10.f")
+	ruleParseBodyTotal(w, r, "C10.f", "C10.f")
 }
 
 func propC11(w *World, r *Run) {
@@ -198,7 +211,7 @@ func propC15(w *World, r *Run) {
 	r.notdec = []string{"validity of the signatures as numbers", "behaviour of net/http (redirect policy beyond the method check)", "more than two loop iterations (the loop body is identical per iteration)"}
 	r.trusted = append(tbCommon, "formats/log.ParseCheckpoint (Sigs lists verified signatures only), net/http client")
 	ruleDistributor(w, r)
-	ruleImmut(w, r, "C15.a", immutCoreFields(w, r, "C15.a"))
+	ruleImmut(w, r, "C15.a", immutCoreFields(w, r, "C15.a", "Distributor"))
 }
 
 func propC16(w *World, r *Run) {
